@@ -84,7 +84,12 @@ def c07(ctx):
     rnd = random.Random(ctx.seed)
     recs = r.records
     rnd.shuffle(recs)
-    quota = {"checkmate": 12, "stalemate": 12, "forced-line": 8, "single-legal-move": 10, "check": 20, "ordinary": 30} if quick else {"checkmate": 60, "stalemate": 60, "forced-line": 40, "single-legal-move": 60, "check": 100, "ordinary": 400}
+    quota = {"checkmate": 10, "stalemate": 10, "forced-line": 8, "single-legal-move": 8, "check": 10, "ordinary": 12} if quick else {"checkmate": 60, "stalemate": 60, "forced-line": 40, "single-legal-move": 60, "check": 100, "ordinary": 400}
+    # every catalogue position itself is a root (the catalogue exists because of the rule interactions in it)
+    for rec in recs:
+        if rec["ply"] == 0 and rec["ok"] and tuple(rec["k"]) not in seen:
+            seen.add(tuple(rec["k"]))
+            chosen.append(fenlib.from_poskey(rec["k"]))
     for rec in recs:
         tags = set(rec["tags"])
         cls = "checkmate" if "checkmate" in tags else "stalemate" if "stalemate" in tags else "forced-line" if "forced-line" in tags else "single-legal-move" if "single-legal-move" in tags else "check" if "check" in tags else "ordinary"
